@@ -159,9 +159,10 @@ Proof. exact sys_honest_decode_outcome. Qed.
 (* byte-granular delivery: handing the two streams over a few BYTES at a time (the receiver keeps an incomplete
    instruction and sees it again, completed, on a later call) amounts to an instruction-granular schedule - the number of
    instructions complete within the bytes so far is computed from the wire lengths of Model/QWire.v - so agreement holds
-   for byte-granular schedules too.  NOT proved here: that the Rust parsers (parse_instruction / Action::parse over
-   prefix_int / prefix_string) return exactly those instructions and keep exactly that tail; this is tied by the
-   correspondence run only (ops i<n> / k<n>, cuts inside string literals and multi-byte integers). *)
+   for byte-granular schedules too.  That the parsers (parse_instruction / Action::parse over prefix_int / prefix_string)
+   return exactly those instructions and keep exactly that tail is proved at the end of this file (theorems C20_parser_...) for the
+   parser model Model/QParse.v; that model is tied to the Rust parsers by the correspondence run (families qp.e / qp.d on
+   valid, truncated and malformed instruction bytes with arbitrary cuts, and the ops i<n> / k<n> of the histories). *)
 Theorem C20_byte_schedule_is_instruction_schedule :
   forall os b,
     b_sys (fst (brun b os)) = fst (sys_run (b_sys b) (bops_ops b os)) /\
@@ -290,3 +291,197 @@ Print Assumptions C20_byte_schedule_is_instruction_schedule.
 Print Assumptions C20_agreement_byte_schedules.
 Print Assumptions C20_agreement_any_state_partial.
 Print Assumptions C20_cancel_blocked_refuted.
+
+(* ------------------------------------------------------------------ the instruction parsers (byte level) *)
+From H3V Require Import Model.PrefixInt Model.PrefixString Model.QParse Proofs.QParseProofs.
+
+(* ranges used below (Proofs/QParseProofs.v), those of the codecs themselves:
+     int_ok size v := v < 2^63 + (2^size - 1)                      (C15_int_roundtrip_partial; beyond it the decoder answers Overflow)
+     str_ok s      := wf_bytes s /\ len s < 2^26                   (C15_string_roundtrip: the Huffman encoder's u32 bit positions)
+     einstr_ok: capacity / index of an encoder instruction int_ok for its prefix size (5, 6, 6, 5), its strings str_ok
+     dinstr_ok: stream id int_ok for its prefix size (7, 6); increment <= 64 (InsertCountIncrement::decode)              *)
+
+(* P0: the parsers are SELF-DELIMITING on every input whatsoever (no premise): when [used] bytes are consumed for an
+   instruction, the same instruction is recognised from those bytes whatever follows them, and every strict prefix of those
+   bytes is answered Incomplete - so nothing is consumed early and nothing is mis-parsed by an early call *)
+Theorem C20_parser_self_delimiting_encoder_stream :
+  forall bs i used, parse_einstr bs = PComplete i used ->
+    exists a rest, bs = a ++ rest /\ used = len a /\ 0 < used /\
+      (forall t, parse_einstr (a ++ t) = PComplete i used) /\
+      (forall n, (n < length a)%nat -> parse_einstr (firstn n a) = PIncomplete).
+Proof. exact parse_einstr_sd. Qed.
+Theorem C20_parser_self_delimiting_decoder_stream :
+  forall bs i used, parse_dinstr bs = PComplete i used ->
+    exists a rest, bs = a ++ rest /\ used = len a /\ 0 < used /\
+      (forall t, parse_dinstr (a ++ t) = PComplete i used) /\
+      (forall n, (n < length a)%nat -> parse_dinstr (firstn n a) = PIncomplete).
+Proof. exact parse_dinstr_sd. Qed.
+
+(* P1: round trip with exact consumption: what InsertWithNameRef / InsertWithoutNameRef / Duplicate / DynamicTableSizeUpdate
+   ::encode write is parsed back to the same instruction, consuming exactly the written bytes, whatever follows *)
+Theorem C20_parser_roundtrip_encoder_stream :
+  forall i w rest, einstr_ok i -> wf_bytes rest -> wire_einstr i = Ok w ->
+    parse_einstr (w ++ rest) = PComplete i (len w) /\ wf_bytes w /\ w <> [].
+Proof. exact parse_einstr_roundtrip. Qed.
+(* ... HeaderAck / StreamCancel / InsertCountIncrement *)
+Theorem C20_parser_roundtrip_decoder_stream :
+  forall i w rest, dinstr_ok i -> wf_bytes rest -> wire_dinstr i = Ok w ->
+    parse_dinstr (w ++ rest) = PComplete i (len w) /\ wf_bytes w /\ w <> [].
+Proof. exact parse_dinstr_roundtrip. Qed.
+
+(* P2: every strict prefix of an instruction's wire form is Incomplete (not an error, not another instruction) *)
+Theorem C20_parser_strict_prefix_incomplete_encoder_stream :
+  forall i w n, einstr_ok i -> wire_einstr i = Ok w -> (n < length w)%nat -> parse_einstr (firstn n w) = PIncomplete.
+Proof. exact parse_einstr_prefix_incomplete. Qed.
+Theorem C20_parser_strict_prefix_incomplete_decoder_stream :
+  forall i w n, dinstr_ok i -> wire_dinstr i = Ok w -> (n < length w)%nat -> parse_dinstr (firstn n w) = PIncomplete.
+Proof. exact parse_dinstr_prefix_incomplete. Qed.
+
+(* P3: the receive loop on the first n bytes of a stream returns exactly the instructions Model/QBytes.complete_within counts
+   from the wire lengths, and leaves exactly the bytes after them: the assumption of the byte-granular model is a theorem
+   about the parser model *)
+Theorem C20_parser_stream_prefix_encoder_stream :
+  forall q W n, Forall einstr_ok q -> wire_einstrs q = Ok W -> n <= len W ->
+    parse_all parse_einstr (firstn (N.to_nat n) W) =
+      (firstn (N.to_nat (fst (complete_within wire_einstr n q))) q,
+       skipn (N.to_nat (snd (complete_within wire_einstr n q))) (firstn (N.to_nat n) W), StopIncomplete).
+Proof. exact parse_all_einstr_prefix. Qed.
+Theorem C20_parser_stream_prefix_decoder_stream :
+  forall q W n, Forall dinstr_ok q -> wire_list wire_dinstr q = Ok W -> n <= len W ->
+    parse_all parse_dinstr (firstn (N.to_nat n) W) =
+      (firstn (N.to_nat (fst (complete_within wire_dinstr n q))) q,
+       skipn (N.to_nat (snd (complete_within wire_dinstr n q))) (firstn (N.to_nat n) W), StopIncomplete).
+Proof. exact parse_all_dinstr_prefix. Qed.
+
+(* ... stated on the step of Model/QBytes.v itself: the number of instructions `BDeliverBytes n` / `BFeedbackBytes n` hands
+   over and the number of pending bytes it records are what the receive loop returns on the bytes held at that point *)
+Theorem C20_parser_byte_step_deliver :
+  forall b n W, Forall einstr_ok (s_eq (b_sys b)) -> wire_einstrs (s_eq (b_sys b)) = Ok W ->
+    exists k tail,
+      bop_op b (BDeliverBytes n) = (ODeliver k, len tail, b_dpend b) /\
+      parse_all parse_einstr (firstn (N.to_nat (N.min (b_epend b + n) (len W))) W) =
+        (firstn (N.to_nat k) (s_eq (b_sys b)), tail, StopIncomplete).
+Proof. exact bop_deliver_bytes_is_parse_all. Qed.
+Theorem C20_parser_byte_step_feedback :
+  forall b n W, Forall dinstr_ok (s_dq (b_sys b)) -> wire_list wire_dinstr (s_dq (b_sys b)) = Ok W ->
+    exists k tail,
+      bop_op b (BFeedbackBytes n) = (OFeedback k, b_epend b, len tail) /\
+      parse_all parse_dinstr (firstn (N.to_nat (N.min (b_dpend b + n) (len W))) W) =
+        (firstn (N.to_nat k) (s_dq (b_sys b)), tail, StopIncomplete).
+Proof. exact bop_feedback_bytes_is_parse_all. Qed.
+
+(* P4: ANY chunking: however the stream is cut into pieces (empty pieces, cuts inside integers and strings included), a
+   receiver that prepends its unconsumed tail to the next piece ends with exactly the instruction list, in order, nothing left *)
+Theorem C20_parser_any_chunking_encoder_stream :
+  forall q W chunks, Forall einstr_ok q -> wire_einstrs q = Ok W -> concat chunks = W ->
+    feed parse_einstr [] chunks = (q, [], StopIncomplete).
+Proof. exact feed_einstr_any_chunking. Qed.
+Theorem C20_parser_any_chunking_decoder_stream :
+  forall q W chunks, Forall dinstr_ok q -> wire_list wire_dinstr q = Ok W -> concat chunks = W ->
+    feed parse_dinstr [] chunks = (q, [], StopIncomplete).
+Proof. exact feed_dinstr_any_chunking. Qed.
+
+(* P5: ANY input (malformed included): the parsers and the receive loop never panic; the loop's tail is a suffix of the
+   input, it stops at the first instruction that is incomplete or in error, and that instruction is not consumed; the
+   first-octet dispatch has no unassigned pattern (the Unknown arms are dead code) *)
+Theorem C20_parser_no_panic :
+  forall bs s, wf_bytes bs -> parse_einstr bs <> PPanic s /\ parse_dinstr bs <> PPanic s.
+Proof. intros bs s H. split; [exact (parse_einstr_no_panic bs s H)|exact (parse_dinstr_no_panic bs s H)]. Qed.
+Theorem C20_parser_loop_any_input_encoder_stream :
+  forall bs xs tail st, wf_bytes bs -> parse_all parse_einstr bs = (xs, tail, st) ->
+    (forall s, st <> StopPanic s) /\ (exists pre, bs = pre ++ tail) /\
+    match st with
+    | StopIncomplete => parse_einstr tail = PIncomplete
+    | StopError e => parse_einstr tail = PError e
+    | StopPanic _ => False
+    end.
+Proof. exact parse_all_einstr_any. Qed.
+Theorem C20_parser_loop_any_input_decoder_stream :
+  forall bs xs tail st, wf_bytes bs -> parse_all parse_dinstr bs = (xs, tail, st) ->
+    (forall s, st <> StopPanic s) /\ (exists pre, bs = pre ++ tail) /\
+    match st with
+    | StopIncomplete => parse_dinstr tail = PIncomplete
+    | StopError e => parse_dinstr tail = PError e
+    | StopPanic _ => False
+    end.
+Proof. exact parse_all_dinstr_any. Qed.
+Theorem C20_parser_dispatch_total :
+  forall b, b < 256 -> ekind_of b <> KEUnknown /\ dkind_of b <> KDUnknown.
+Proof. exact kinds_total. Qed.
+
+(* P6: an answer other than Incomplete - a complete instruction with its byte count, or an error - is never changed by
+   more bytes: only Incomplete is provisional *)
+Theorem C20_parser_decided_answers_stable :
+  forall bs t, (parse_einstr bs <> PIncomplete -> parse_einstr (bs ++ t) = parse_einstr bs) /\
+               (parse_dinstr bs <> PIncomplete -> parse_dinstr (bs ++ t) = parse_dinstr bs).
+Proof. intros bs t. split; [exact (parse_einstr_stable bs t)|exact (parse_dinstr_stable bs t)]. Qed.
+
+(* P7: ANY byte stream (truncated and malformed ones included), ANY chunking: the receiver fed in pieces reports exactly the
+   instructions and the verdict of the receive loop run once on the whole stream, and the same unconsumed tail when there is
+   no error (after an error it holds the part of that tail it has been given so far) *)
+Theorem C20_parser_chunking_invariant_encoder_stream :
+  forall chunks, wf_bytes (concat chunks) ->
+    match parse_all parse_einstr (concat chunks) with
+    | (xs, tl, StopIncomplete) => feed parse_einstr [] chunks = (xs, tl, StopIncomplete)
+    | (xs, tl, StopError e) => exists tl' rest, feed parse_einstr [] chunks = (xs, tl', StopError e) /\ tl = tl' ++ rest
+    | (_, _, StopPanic _) => False
+    end.
+Proof. exact feed_einstr_chunking_invariant. Qed.
+Theorem C20_parser_chunking_invariant_decoder_stream :
+  forall chunks, wf_bytes (concat chunks) ->
+    match parse_all parse_dinstr (concat chunks) with
+    | (xs, tl, StopIncomplete) => feed parse_dinstr [] chunks = (xs, tl, StopIncomplete)
+    | (xs, tl, StopError e) => exists tl' rest, feed parse_dinstr [] chunks = (xs, tl', StopError e) /\ tl = tl' ++ rest
+    | (_, _, StopPanic _) => False
+    end.
+Proof. exact feed_dinstr_chunking_invariant. Qed.
+
+(* outside the premise dinstr_ok (observation, replayed on the real code: corpus/C20/parser.case): on_encoder_recv writes
+   InsertCountIncrement(n) for every n <= 255 (more than 64 insertions in one call), InsertCountIncrement::decode refuses
+   n > 64 - the decoder-stream round trip P1 is FALSE without the premise `increment <= 64` *)
+Theorem C20_parser_increment_above_64_refuted :
+  exists i w, wire_dinstr i = Ok w /\ parse_dinstr w = PError (PEInteger PiOverflow).
+Proof. exists (DIncrement 65), [63; 2]. exact increment_above_limit_rejected. Qed.
+
+(* non-vacuity: five instructions (capacity 4096 and static index 70 and duplicate 40 need continuation octets, Huffman coded
+   name and values) cut inside the first integer, inside the name, inside the value, inside the static index, with an empty
+   piece, and before the last octet; and two malformed streams *)
+Example C20_parser_inhabited :
+  let q := [ISizeUpdate 4096; IInsertLit [120; 45; 97] [118; 97; 108; 117; 101; 49]; IInsertStatic 70 [119; 119; 119];
+            IDuplicate 40; IInsertDyn 1 []] in
+  let W := [63; 225; 31; 99; 242; 176; 255; 133; 238; 58; 45; 40; 127; 255; 7; 131; 241; 227; 199; 31; 9; 129; 128] in
+  let chunks := [[63; 225]; [31; 99; 242]; [176; 255; 133; 238; 58]; [45; 40; 127; 255]; [];
+                 [7; 131; 241; 227; 199; 31; 9; 129]; [128]] in
+  wire_einstrs q = Ok W /\ concat chunks = W /\
+  feed parse_einstr [] chunks = (q, [], StopIncomplete) /\
+  parse_all parse_einstr [63; 225] = ([], [63; 225], StopIncomplete) /\
+  parse_all parse_einstr [63; 225; 31; 99; 242] = ([ISizeUpdate 4096], [99; 242], StopIncomplete) /\
+  parse_all parse_einstr [99; 242; 176; 255; 133; 238; 58] = ([], [99; 242; 176; 255; 133; 238; 58], StopIncomplete) /\
+  complete_within wire_einstr 14 q = (2, 13) /\
+  parse_all parse_einstr (firstn 14 W) = (firstn 2 q, [255], StopIncomplete) /\
+  parse_all parse_einstr [31; 9; 97; 254; 0] = ([IDuplicate 40], [97; 254; 0], StopError (PEString (PsHuffman Huffman.MissingBits))) /\
+  parse_all parse_dinstr [130; 63; 2; 5] = ([DAck 2], [63; 2; 5], StopError (PEInteger PiOverflow)) /\
+  feed parse_dinstr [] [[130; 63]; [2]; [5]] = ([DAck 2], [63; 2], StopError (PEInteger PiOverflow)) /\
+  parse_all parse_dinstr [255; 233; 6; 63; 1; 127; 7; 3; 127] = ([DAck 1000; DIncrement 64; DCancel 70; DIncrement 3], [127], StopIncomplete).
+Proof. vm_compute. repeat split; reflexivity. Qed.
+
+Print Assumptions C20_parser_self_delimiting_encoder_stream.
+Print Assumptions C20_parser_self_delimiting_decoder_stream.
+Print Assumptions C20_parser_roundtrip_encoder_stream.
+Print Assumptions C20_parser_roundtrip_decoder_stream.
+Print Assumptions C20_parser_strict_prefix_incomplete_encoder_stream.
+Print Assumptions C20_parser_strict_prefix_incomplete_decoder_stream.
+Print Assumptions C20_parser_stream_prefix_encoder_stream.
+Print Assumptions C20_parser_stream_prefix_decoder_stream.
+Print Assumptions C20_parser_byte_step_deliver.
+Print Assumptions C20_parser_byte_step_feedback.
+Print Assumptions C20_parser_any_chunking_encoder_stream.
+Print Assumptions C20_parser_any_chunking_decoder_stream.
+Print Assumptions C20_parser_no_panic.
+Print Assumptions C20_parser_loop_any_input_encoder_stream.
+Print Assumptions C20_parser_loop_any_input_decoder_stream.
+Print Assumptions C20_parser_dispatch_total.
+Print Assumptions C20_parser_increment_above_64_refuted.
+Print Assumptions C20_parser_decided_answers_stable.
+Print Assumptions C20_parser_chunking_invariant_encoder_stream.
+Print Assumptions C20_parser_chunking_invariant_decoder_stream.
